@@ -12,7 +12,7 @@ from collections.abc import Sequence
 
 from props.common import Injected, InjectedBase, InjectedGeneratorExit, describe_exc
 from sim.loop import GRID, SimStop
-from sim.prop import Prop, sweep_expand
+from sim.prop import Prop, sweep_expand, with_eager
 
 EPS = 1e-9
 NAMES = ("s", "outer", "a b", "", "100%", "%s", "x%dy", "scope")
@@ -195,7 +195,7 @@ class Frame:
 class Actor:
     __slots__ = ("aid", "stack", "task", "ended", "end_exc", "parent", "harness_cancel", "spawned_in", "gate_forced",
                  "via", "held", "started", "cancel_landed", "gate_forced_seq", "pending_cancel", "caught_cancels",
-                 "exempt_cancel")
+                 "exempt_cancel", "stale_cancel")
 
     def __init__(self, aid, stack, parent=None):
         self.aid = aid
@@ -215,6 +215,7 @@ class Actor:
         self.pending_cancel = False
         self.caught_cancels = 0
         self.exempt_cancel = False
+        self.stale_cancel = False
 
 
 def _gate_forced_before(self, seq):
@@ -827,7 +828,11 @@ class Engine:
         """Which task group adopts a no-op task spawned here (identity), None if detached."""
         from haiway import ctx
 
+        eager = getattr(self.sim, "eager", False)
+
         async def noop():
+            if eager:
+                await asyncio.sleep(0)  # (stay pending for one iteration: a task that finished eagerly has no owner to show)
             return None
 
         try:
@@ -1259,6 +1264,7 @@ class Engine:
             # ENCLOSING scope whose child failed (it aborts and cancels this task); the scope's own group never lets the
             # cancellation it requested itself escape
             cancellable = (actor.harness_cancel or actor.cancel_landed is not None or actor.spawned_in is not None
+                           or actor.stale_cancel
                            or any(g.kind == "scope" and g.is_async and g.child_failed for g in actor.stack))
             if f.body_exc is not None and left is not f.body_exc:
                 cancelled_in_exit = isinstance(left, asyncio.CancelledError) and cancellable
@@ -1473,6 +1479,14 @@ class Engine:
                     sim.fail("spawn-raised", f"ctx.spawn raised {exc!r} ({'outside any async scope' if scope is None else 'inside scope #%d' % scope.uid})",
                              where="outside" if scope is None else "inside")
                 raise
+            if (getattr(sim, "eager", False) and scope is not None and scope.actor is actor and child.task.done()
+                    and child.end_exc is not None and not isinstance(child.end_exc, asyncio.CancelledError)):
+                # eager task factory: the child failed INSIDE create_task, so CPython's TaskGroup cancelled its parent - the task
+                # that is running right now.  3.12.1 takes the request back with uncancel() but leaves the task's pending
+                # cancellation armed: a CancelledError will surface at some later suspension point of this actor, whatever
+                # the library does (ground rule 5: CPython's own behaviour is not judged)
+                actor.stale_cancel = True
+                sim.stats["exempt:eager_child_failure_leaves_cancel_armed"] += 1
             if scope is not None:
                 scope.tasks.append(child)
                 child.spawned_in = scope
@@ -1480,7 +1494,8 @@ class Engine:
                 # outside any scope: a detached, running task
                 if self.cfg["join"]:
                     sim.stats["spawn_outside_any_async_scope"] += 1
-                    if child.task.done():
+                    if child.task.done() and not getattr(sim, "eager", False):
+                        # (under an eager task factory a task that never suspends is finished when create_task returns)
                         sim.fail("detached-spawn", "ctx.spawn outside any scope returned a finished task")
                     if self.owner_of(child.task) is not None and not actor.stack:
                         sim.fail("detached-spawn", "ctx.spawn outside any scope returned a task owned by a task group")
@@ -2265,7 +2280,20 @@ class ScopeProp(Prop):
         Engine.all_frames = []
 
 
+EAGER_PROFILES = {
+    "C02": [("plain", 30000), ("disp", 20000), ("cancel", 12000)],
+    "C03": [("plain", 20000)],
+    "C06": [("plain", 30000), ("disp", 10000), ("cancel", 12000)],
+    "C07": [("plain", 30000), ("cancel", 20000)],
+    "C08": [("faults", 30000)],
+    "C09": [("plain", 40000), ("faults", 20000)],
+    "C10": [("plain", 40000)],
+    "C19": [("plain", 40000)],
+}
+
+
 def _mk(pid, level, tiers, rule, sweeps=()):
+    tiers = with_eager(tiers, EAGER_PROFILES.get(pid, []))
     cls = type(pid, (ScopeProp,), {"id": pid, "level": level, "tiers": tiers, "rule_text": rule,
                                    "sweep_profiles": tuple(sweeps),
                                    # programs with explicit gc events: garbage of earlier runs must not be finalised inside them
